@@ -1,3 +1,4 @@
+// @READY (registered in vf/props.py)
 // appended to src/tools/error.rs (scratch copy only)
 #[cfg(any(kani, test))]
 #[allow(dead_code)]
